@@ -4,6 +4,7 @@ import (
 	"fmt"
 	"math/rand"
 	"net"
+	"strings"
 
 	"verif/internal/pkt"
 )
@@ -363,8 +364,21 @@ func relayAgentOpts6(rng *rand.Rand) []pkt.Opt6 {
 func noise4(rng *rand.Rand, with82, with61 bool) []pkt.Opt4 {
 	var o []pkt.Opt4
 	if rng.Intn(3) == 0 {
-		o = append(o, pkt.O4(60, []byte([]string{"PXEClient:Arch:00000:UNDI:002001", "PXEClient", "MSFT 5.0", "udhcp 1.36", "HTTPClient:Arch:00016"}[rng.Intn(5)])...))
+		vc := []string{"PXEClient:Arch:00000:UNDI:002001", "PXEClient", "MSFT 5.0", "udhcp 1.36", "HTTPClient:Arch:00016", "HTTPClient:Arch:00016:UNDI:003001", "HTTPClient"}[rng.Intn(7)]
+		o = append(o, pkt.O4(60, []byte(vc)...))
+		if strings.HasSuffix(vc, "1") || rng.Intn(2) == 0 {
+			// firmware sends its machine identifier (97) and architecture (93) along with the vendor class
+			id := make([]byte, 17)
+			rng.Read(id[1:])
+			o = append(o, pkt.O4(97, id...), pkt.O4(93, 0, byte([]int{0, 7, 16}[rng.Intn(3)])))
+			return append(o, noise4tail(rng, with82, with61)...)
+		}
 	}
+	return append(o, noise4tail(rng, with82, with61)...)
+}
+
+func noise4tail(rng *rand.Rand, with82, with61 bool) []pkt.Opt4 {
+	var o []pkt.Opt4
 	if rng.Intn(3) == 0 {
 		v := []uint16{576, 577, 590, 600, 1000, 1500, 65535, 575, 100}[rng.Intn(9)]
 		o = append(o, pkt.O4(57, byte(v>>8), byte(v)))
